@@ -51,6 +51,11 @@ function e.both(frame)
 end
 function e.title(frame) return frame:getTitle() end
 function e.pp(frame) return frame:preprocess(frags[tonumber(frame.args[1])]) end
+function e.ppv(frame) return frame:newParserValue{text = frags[tonumber(frame.args[1])]}:expand() end
+function e.etv(frame)
+  local spec = frags[tonumber(frame.args[1])]
+  return frame:newTemplateParserValue{title = spec.title, args = spec.args}:expand()
+end
 function e.et(frame)
   local spec = frags[tonumber(frame.args[1])]
   return frame:expandTemplate{title = spec.title, args = spec.args}
@@ -377,6 +382,12 @@ def work(payload, skip, report):
             acc.distinct("cases", case)
             if got != want:
                 acc.violation(which + "_equals_wikitext", case, got, want)
+            if which in ("pp", "et"):
+                # the deferred forms of the same two calls (frame:newParserValue / frame:newTemplateParserValue, expanded at once)
+                ctx.start_page("Tt")
+                gotv = ctx.expand("{{#invoke:echo|%sv|%d}}" % (which, i + 1))
+                if gotv != want:
+                    acc.violation(which + "_parser_value_equals_wikitext", dict(case, api=case["api"] + " (parser value)"), gotv, want)
             if i % 301 == 0:
                 acc.sample(case)
         close_ctx(ctx)
